@@ -150,6 +150,23 @@ def r4_no_reentrancy(ctx, rule="C16.R4"):
     ctx.ok(rule, "sourceview", "calls-under-lock", "%d local calls under the lock analysed; none reaches a locking function" % n)
 
 
+def fresh_views(ctx, rule):
+    """Every SourceView is created with an empty cache and a zero progress counter (clones do
+    not inherit indexing state): the state a reader sees is only ever produced under the lock."""
+    n = 0
+    for b in ctx.facts.local_fns():
+        for bi, si, s, it in b.locations():
+            if not it and s["k"] == "assign" and s["rv"]["k"] == "agg" and s["rv"].get("adt") == "sourceview::SourceView":
+                a = b.expr_of_rvalue(s["rv"])
+                n += 1
+                ok = q.shape(a.field("processed_until")) == "Atomic::new(0)" and q.shape(a.field("lines")) in ("Mutex::new(Vec::new())", "Mutex::new(Default::default())", "Default::default()")
+                ctx.check(ok, rule, b.path, "fresh-state", "a new or cloned SourceView starts unindexed (counter 0, empty cache)", ctx.site(b, bi, si), detail=q.shape(a)[:200])
+    ctx.floor(rule, "sourceview", "SourceView constructions", n, 3)
+    cl = ctx.body("<sourceview::SourceView as core::clone::Clone>::clone")
+    lit = [q.shape(cl.expr_of_rvalue(s["rv"]).field("source")) for bi, si, s, it in cl.locations() if not it and s["k"] == "assign" and s["rv"]["k"] == "agg" and s["rv"].get("adt") == "sourceview::SourceView"]
+    ctx.check(lit in (["arg1.source"], ["Clone::clone(arg1.source)"]), rule, cl.path, "clone:same-text", "a clone views the same text", detail=str(lit))
+
+
 def r5_monotone(ctx, rule="C15.R4"):
     """lines is append-only; the counter only grows."""
     ops = set()
